@@ -115,7 +115,7 @@ Proof. exact chain_id_slash_refuted. Qed.
 Print Assumptions C19_chain_id_slash_refuted.
 
 (** * Merkle roots (transaction root, receipts root) *)
-From Verif Require Import Codec.Merkle Codec.MerkleProofs Codec.Receipt Codec.ReceiptProofs
+From Verif Require Import Codec.Merkle Codec.MerkleProofs Codec.MerkleArray Codec.Receipt Codec.ReceiptProofs
   Codec.Hardfork Codec.HardforkProofs.
 
 (** Two entry lists of the same length with the same root are equal, or the hash collides
@@ -126,6 +126,13 @@ Theorem C19_merkle_binding_same_length :
   merkle_root H l1 = merkle_root H l2 -> l1 = l2 \/ collision H.
 Proof. exact merkle_binding_same_length. Qed.
 Print Assumptions C19_merkle_binding_same_length.
+
+(** The literal array algorithm of merkle.go returns the root of the level-list model the
+    theorems are stated over, for every hash function and entry list. *)
+Theorem C19_merkle_root_array_eq : forall (H : bytes -> bytes) leaves,
+  merkle_root_array H leaves = Some (merkle_root H leaves).
+Proof. exact Codec.MerkleArray.merkle_root_array_eq. Qed.
+Print Assumptions C19_merkle_root_array_eq.
 
 (** F5 (known finding): the number of entries is not bound, for every hash function. *)
 Theorem C19_merkle_length_not_bound_refuted : forall (H : bytes -> bytes),
